@@ -157,10 +157,19 @@ def mutate_text(data, muts, other):
         return mutate(data, muts, other)
     toks = ['{', '}', '[', ']', ',', ':', '"', '<', '>', '/', '</a>', '<a>', '0', '-1', '1e999', 'null', 'true',
             '""', '<a/>', ' ', '9' * 40, '\\u0000', '\\', "'"]
+    import re
     for op, pos, val in muts:
         n = len(t)
-        op = op % 6
+        op = op % 7
         p = pos % (n + 1)
+        if op == 6:
+            # inflate / replace a number of the document (a length or count field, an index, an exponent)
+            runs = list(re.finditer(r'-?\d+', t))
+            if runs:
+                m_ = runs[pos % len(runs)]
+                big = ['268435456', '4294967296', '99999999999', '1e9', '-1', '65536', '2147483648', '1' + '0' * 30][val % 8]
+                t = t[:m_.start()] + big + t[m_.end():]
+            continue
         if op == 0:
             t = t[:p] + toks[val % len(toks)] + t[p:]
         elif op == 1 and n:
@@ -209,6 +218,16 @@ class C08(Check):
 
     def run_shard(self, shard, tier, seed, rec):
         codec = shard['codec']
+        # backstop: an allocation of gigabytes fails fast with MemoryError (reported as unbounded-memory) instead of
+        # taking the machine down
+        try:
+            import resource
+            lim = 6 * 2 ** 30
+            soft, hard = resource.getrlimit(resource.RLIMIT_AS)
+            if soft == resource.RLIM_INFINITY or soft > lim:
+                resource.setrlimit(resource.RLIMIT_AS, (lim, hard))
+        except Exception:
+            pass
         scale = float(os.environ.get('ASN1V_SCALE', '1'))
         n = max(1, int((90 if tier == "quick" else 1500) * scale))
         prof = gen.Profile(max_types=4, max_depth=3)
@@ -250,6 +269,7 @@ class C08(Check):
                     pool.append({'text': spec.text(), 'type': name, 'valid': [v_[0].hex() for v_ in valid],
                                  'rate': rate, 'tsize': tsize,
                                  'case': common.mk_case(spec, modname, name, vals[0], codec=codec)})
+                flagged = False
                 for k, ms in enumerate(muts):
                     base = valid[k % len(valid)][0]
                     if codec in ('ber', 'der') and k % 3 == 2:
@@ -259,7 +279,9 @@ class C08(Check):
                         data = (mutate_text if textual else mutate)(base, ms, other)
                     budget = int(max(FLOOR_EVENTS, FACTOR * max(rate, 1.0) * (len(data) + 64) * (tsize + 1)))
                     rec.ev()
-                    sample_mem = (rec.evaluations % 8 == 0)
+                    # memory is always measured for the text codecs (their inputs are small and a single C call can
+                    # allocate without any call event), on a sample for the binary ones
+                    sample_mem = textual or (rec.evaluations % 8 == 0)
                     if sample_mem:
                         tracemalloc.start()
                     try:
@@ -275,11 +297,13 @@ class C08(Check):
                                                valid=sentinel.hex(), budget=budget)
                     feats = sorted(common.type_features(spec, ty, modname)) + ['codec:' + codec]
                     if r[0] in ('work', 'hang', 'memory'):
+                        flagged = True
                         rec.fail(Failure('unbounded-' + r[0], 'decode of %d input bytes on a type of %d nodes used more '
                                          'than %d call events (valid decodes need %.1f per unit): %s' % (
                                              len(data), tsize, budget, rate, data.hex()[:80]), case_json, feats))
                         continue
                     if sample_mem and peak > 8 * 2 ** 20 + 4096 * (len(data) + 64) * (tsize + 1):
+                        flagged = True
                         rec.fail(Failure('unbounded-memory', 'decode of %d input bytes allocated %d bytes (tracemalloc '
                                          'peak)' % (len(data), peak), case_json, feats))
                         continue
@@ -298,6 +322,8 @@ class C08(Check):
                 # is not restored, a cache that fills up): repeat every mutated input of this type on the same
                 # compiled object, then the sentinel once more
                 burst = []
+                if flagged:
+                    continue
                 for k, ms in enumerate(muts):
                     base = valid[k % len(valid)][0]
                     burst.append(mutate_tlv(base, ms, other) if (codec in ('ber', 'der') and k % 3 == 2) else
